@@ -14,9 +14,12 @@ PROPERTY = "C18"
 LEVEL = "exploration"
 RULE = ("Hypothesis grammar-based generator of valid multi-file protocol.xml trees (cross-file type "
         "references within the directory layering root<pub<pub/server<map<net<net/client<net/server) x "
-        "configurations: (A) natural order in-process; (B) permuted os.walk results + reversed on-disk "
+        "configurations: (A) natural order in-process (for 3 trees in 10 by a generator object that has "
+        "already processed an earlier, valid or invalid, revision of the directory); (B) the same documents in "
+        "another spelling (CRLF, XML comments, attribute order, quotes, <x></x>, BOM, no declaration) beside "
+        "unrelated files + permuted os.walk results + reversed on-disk "
         "creation order + two generate() calls on one generator object into a directory already holding "
-        "a previous output and an unrelated file; (C) a subprocess with a drawn PYTHONHASHSEED and another "
+        "a previous output and an unrelated file; (C) a subprocess with a drawn PYTHONHASHSEED (half in the plain C locale) and another "
         "walk permutation; (D) a fresh interpreter importing eolib and checking every declared type "
         "(class, __module__, exported from its public subpackage and from eolib). Oracle: generator "
         "accepts; file sets byte-identical across A/B/C; D reports no problem. Non-trivial: tree with "
